@@ -24,6 +24,7 @@ from vfw.core import (
     Reject,
     HarnessError,
     case_hash,
+    canonical,
 )
 
 MAX_SAMPLES = 4
@@ -62,6 +63,9 @@ class ShardStats:
         self.violation = None
         self.harness_error = None
         self.frozen = False
+        self.violation_size = None
+        self.shrink_started = None
+        self.shrink_budget_s = 20.0
 
     def as_dict(self):
         return {
@@ -89,6 +93,10 @@ def run_case(part, case, stats, known):
 
     Returns normally when the property held or the case hit a *known*
     finding; raises _Failure for anything else."""
+    if stats.frozen and (
+            time.time() - stats.shrink_started > stats.shrink_budget_s):
+        # shrink budget used up: stop evaluating, let Hypothesis wind down
+        return 'skipped'
     try:
         labels = part.check(case)
         labels = set(labels or ())
@@ -102,13 +110,20 @@ def run_case(part, case, stats, known):
                 stats.evaluations += 1
                 stats.excluded_known[vio.signature] += 1
             return 'known'
-        stats.frozen = True
-        stats.violation = {
-            'part': part.name,
-            'signature': vio.signature,
-            'detail': vio.detail[:2000],
-            'case': case,
-        }
+        if not stats.frozen:
+            stats.frozen = True
+            stats.shrink_started = time.time()
+        size = len(canonical(case))
+        if stats.violation is None or size <= stats.violation_size:
+            # keep the smallest failing case seen (Hypothesis shrinks
+            # towards it; we do not depend on its final replay)
+            stats.violation_size = size
+            stats.violation = {
+                'part': part.name,
+                'signature': vio.signature,
+                'detail': vio.detail[:2000],
+                'case': case,
+            }
         raise _Failure(vio.signature) from vio
     except HarnessError as err:
         stats.frozen = True
@@ -178,12 +193,18 @@ def _run_hypothesis(part, tier, seed, shard, stats, known):
         if outcome == 'rejected':
             hypothesis.reject()
 
+    stats.shrink_budget_s = 20.0 if tier == 'quick' else 120.0
     try:
         test()
     except (_Failure, _Harness):
         pass
     except hypothesis.errors.Unsatisfiable:
         stats.harness_error = 'generator unsatisfiable (too many rejects)'
+    except Exception:  # pylint: disable=broad-except
+        # e.g. Flaky, raised because evaluation stops once the shrink
+        # budget is used up; the recorded failing case is what counts
+        if stats.violation is None and stats.harness_error is None:
+            stats.harness_error = traceback.format_exc()
 
 
 def replay_file(pid, path, known):
